@@ -3,7 +3,7 @@
    Separate extraction: one OCaml module per Coq file, written to Extract/ml/. *)
 From Coq Require Import NArith ZArith List.
 From Coq Require Extraction ExtrOcamlBasic.
-From Verif Require Import Kernel.Varint Model.PlainFrame Model.NoiseFrame Model.WireSpec Model.Conn Model.Keepalive Model.Client Model.FloatFix Model.Convert Model.CommandIR Generated.GenCommands Model.Resolver.
+From Verif Require Import Kernel.Varint Model.PlainFrame Model.NoiseFrame Model.WireSpec Model.Conn Model.Keepalive Model.Client Model.FloatFix Model.Convert Model.CommandIR Generated.GenCommands Model.Resolver Model.Reconnect.
 Extraction Language OCaml.
 Cd "Extract/ml".
 Separate Extraction N.add N.mul N.of_nat N.to_nat N.eqb Z.add Z.mul Z.opp
@@ -15,5 +15,6 @@ Separate Extraction N.add N.mul N.of_nat N.to_nat N.eqb Z.add Z.mul Z.opp
   Client.cstep Client.client_init
   FloatFix.fix_float Convert.from_pb Convert.conv
   CommandIR.exec CommandIR.get CommandIR.wf GenCommands.commands
-  Resolver.resolve Resolver.zrun.
+  Resolver.resolve Resolver.zrun
+  Reconnect.rstep Reconnect.rl_init Reconnect.backoff_seconds.
 Cd "../..".
